@@ -8,6 +8,7 @@ use crate::rng::Rng;
 use crate::rulegen::harvest;
 use crate::Opts;
 use ast_grep_core::matcher::MatcherExt;
+use ast_grep_core::Language;
 use ast_grep_language::SupportLang;
 use serde_json::json;
 use std::panic::{catch_unwind, AssertUnwindSafe};
@@ -236,6 +237,9 @@ fn lsp_fix_all_disjoint(o: &Opts, out: &mut Out) {
     ("id: arg\nlanguage: TypeScript\nmessage: m\nrule:\n  kind: number\n  inside: {kind: arguments}\nfix:\n  template: 'N'\n  expandEnd: {regex: ','}\n  expandStart: {regex: ','}\n",
      "f(1, 2, 3, 4)\ng(1)\nh(a, 1, 2)\n"),
     ("id: plain\nlanguage: TypeScript\nmessage: m\nrule:\n  pattern: foo($A)\nfix: bar($A)\n", "foo(foo(1)); foo(2)\n"),
+    // multi-byte text before the replaced range on the same line: the edit range is in characters
+    ("id: wide\nlanguage: TypeScript\nmessage: m\nrule:\n  kind: pair\n  regex: '^b:'\nfix:\n  template: ''\n  expandEnd: {regex: ','}\n",
+     "var o = { ä: 1, b: 2, c: 3 }\nvar p = { 日本: 1, b: 2, ü: 3 }\nvar q = { b: 2, c: 3 }\n"),
   ];
   for (yaml, src) in cases {
     let Some(rules) = load_rules(&[yaml.to_string()]) else { continue };
@@ -245,7 +249,12 @@ fn lsp_fix_all_disjoint(o: &Opts, out: &mut Out) {
     out.count("lsp:fix-all-disjointness");
     match run_lsp(rules, &dir, &[did_open(&uri, "typescript", 1, src), fixall]) {
       Ok(resp) => {
-        let off = |line: u64, ch: u64| -> usize { src.split_inclusive('\n').take(line as usize).map(|l| l.len()).sum::<usize>() + ch as usize };
+        // LSP positions count characters (UTF-16 units; the texts here stay in the basic plane)
+        let off = |line: u64, ch: u64| -> usize {
+          let start: usize = src.split_inclusive('\n').take(line as usize).map(|l| l.len()).sum::<usize>();
+          let rest = &src[start..];
+          start + rest.char_indices().nth(ch as usize).map(|x| x.0).unwrap_or(rest.len())
+        };
         let mut edits: Vec<(usize, usize)> = vec![];
         for m in resp.get(1).unwrap_or(&vec![]).iter().filter(|m| m["id"] == 10 && m.get("result").is_some()) {
           for a in m["result"].as_array().cloned().unwrap_or_default() {
@@ -259,6 +268,30 @@ fn lsp_fix_all_disjoint(o: &Opts, out: &mut Out) {
           out.nontrivial(&format!("{yaml}{edits:?}"));
         }
         let listed = edits.clone();
+        // the same edits as the library computes for the rule (skipping those that overlap an earlier one)
+        {
+          let Some(rules2) = load_rules(&[yaml.to_string()]) else { continue };
+          let r0 = &rules2[0];
+          if let Some(fx) = r0.matcher.fixer.as_ref() {
+            let g = SupportLang::TypeScript.ast_grep(src);
+            let mut lib: Vec<(usize, usize)> = vec![];
+            let mut last = 0usize;
+            for nm in g.root().find_all(&r0.matcher) {
+              let e = nm.make_edit(&r0.matcher, fx);
+              if e.position < last {
+                continue;
+              }
+              last = e.position + e.deleted_length;
+              lib.push((e.position, e.position + e.deleted_length));
+            }
+            let mut got_sorted = listed.clone();
+            got_sorted.sort();
+            if got_sorted != lib {
+              out.oracle_fail("", &format!("the language server's fix-all replaces the ranges {got_sorted:?}; the library's edits for the same rule are {lib:?}; source {src:?}"),
+                json!({"stream": "c06-lsp-fixall", "rule": yaml, "source": src}));
+            }
+          }
+        }
         edits.sort();
         let overlapping = edits.windows(2).find(|w| w[1].0 < w[0].1);
         if let Some(w) = overlapping {
